@@ -2,7 +2,7 @@ import Varpulis.Model.Ctx
 /-! Lemmas about M-CTX (Model/Ctx.lean): per-edge delivery invariant, blocking vs try_send,
 completeness of the successor function, the quiescent-checkpoint invariant. -/
 namespace Varpulis.Ctx
-variable {σ ε : Type}
+variable {σ ε τ : Type}
 
 
 theorem enq_snoc (l : List (Obs ε)) (o : Obs ε) (p : Src) (q : Nat) : enq (l ++ [o]) p q = enq l p q ++ (enqOf p q o).toList := by
@@ -514,5 +514,469 @@ def cycle2 (cap : Nat) (blocking : Bool) : Net Unit Nat :=
   { n := 2, cap := cap, blocking := blocking, dflt := 0,
     route := fun e => if e < 10 then some 0 else if e < 20 then some 1 else if e < 30 then some 0 else none,
     proc := fun c _ e => ((), if c = 0 then (if e < 10 then [e + 10] else []) else [e + 10]) }
+
+/-! ## stream programs: the network computes the Kahn meaning -/
+
+theorem kahn_unique (P : Prog τ ε) (hacyc : ∀ s ∈ P.streams, s.src < s.name) (inputs : List ε)
+    (O O' : Nat → List ε) (h : Kahn P inputs O) (h' : Kahn P inputs O') : ∀ t, O t = O' t := by
+  intro t
+  induction t using Nat.strongRecOn with
+  | _ t ih =>
+    by_cases hs : ∃ s ∈ P.streams, s.name = t
+    · obtain ⟨s, hs, hn⟩ := hs
+      subst hn
+      rw [h.2 s hs, h'.2 s hs, ih s.src (hacyc s hs)]
+    · have hno : ∀ s ∈ P.streams, s.name ≠ t := fun s hs' hn => hs ⟨s, hs', hn⟩
+      rw [h.1 t hno, h'.1 t hno]
+
+theorem engSt_snoc (net : Net σ ε) (c : Nat) (s0 : σ) (xs : List ε) (x : ε) :
+    engSt net c s0 (xs ++ [x]) = (net.proc c (engSt net c s0 xs) x).1 := by
+  simp [engSt, List.foldl_append]
+
+theorem engRun_snoc (net : Net σ ε) (c : Nat) (xs : List ε) (x : ε) : ∀ s0 : σ,
+    engRun net c s0 (xs ++ [x]) = engRun net c s0 xs ++ (net.proc c (engSt net c s0 xs) x).2 := by
+  induction xs with
+  | nil => intro s0; simp [engRun, engSt]
+  | cons y ys ih => intro s0; simp [engRun, engSt, ih, List.append_assoc]
+
+def rcvdOf (c : Nat) : Obs ε → Option ε
+  | .got q _ e => if q = c then some e else none
+  | _ => none
+def allOutOf : Obs ε → Option ε
+  | .fwd _ e _ _ => some e
+  | _ => none
+def fedOkOf : Obs ε → Option ε
+  | .fed e _ true => some e
+  | _ => none
+
+/-- everything context `c` took from its inbox, in order -/
+def rcvd (log : List (Obs ε)) (c : Nat) : List ε := log.filterMap (rcvdOf c)
+def allOut (log : List (Obs ε)) : List ε := log.filterMap allOutOf
+def fedOk (log : List (Obs ε)) : List ε := log.filterMap fedOkOf
+
+theorem fm_snoc {α β : Type} (f : α → Option β) (l : List α) (o : α) :
+    (l ++ [o]).filterMap f = l.filterMap f ++ (f o).toList := by
+  simp only [List.filterMap_append, List.filterMap_cons, List.filterMap_nil]; cases f o <;> rfl
+
+def WfObs (net : Net σ ε) : Obs ε → Prop
+  | .fed e q _ => q = (tgt net e).getD net.dflt
+  | .fwd c e dst _ => dst = tgt net e ∧ c < net.n
+  | _ => True
+
+structure FInv (net : Net σ ε) (inputs : List ε) (σ0 : Nat → σ) (s : St σ ε) : Prop where
+  todo : fedOk s.log ++ s.todo = inputs
+  out : s.out = allOut s.log
+  eng : ∀ c, outOf s.log c ++ s.pend c = engRun net c (σ0 c) (rcvd s.log c) ∧
+             s.eng c = engSt net c (σ0 c) (rcvd s.log c)
+  wf : ∀ o ∈ s.log, WfObs net o
+
+theorem finv_init (net : Net σ ε) (inputs : List ε) (σ0 : Nat → σ) : FInv net inputs σ0 (init inputs σ0) where
+  todo := by simp [init, fedOk]
+  out := by simp [init, allOut]
+  eng := by intro c; simp [init, outOf, rcvd, engRun, engSt]
+  wf := by intro o ho; simp [init] at ho
+
+theorem finv_step (net : Net σ ε) (inputs : List ε) (σ0 : Nat → σ) (s s' : St σ ε) (l : Label)
+    (h : FInv net inputs σ0 s) (hs : step net s l = some s') : FInv net inputs σ0 s' := by
+  obtain ⟨htodo, hout, heng, hwf⟩ := h
+  have wf_snoc : ∀ o, WfObs net o → ∀ o' ∈ s.log ++ [o], WfObs net o' := by
+    intro o ho o' ho'
+    rcases List.mem_append.1 ho' with h1 | h1
+    · exact hwf o' h1
+    · simp at h1; subst h1; exact ho
+  cases l with
+  | feed =>
+    simp only [step] at hs
+    split at hs
+    · simp at hs
+    · rename_i e rest hto
+      split at hs
+      · injection hs with hs; subst hs
+        refine ⟨?_, ?_, ?_, wf_snoc _ (by simp [WfObs])⟩
+        · simp only [fedOk, fm_snoc, fedOkOf] at *; rw [hto] at htodo; simpa using htodo
+        · simp only [allOut, fm_snoc, allOutOf] at *; simpa using hout
+        · intro c; simp only [outOf, rcvd, fm_snoc, outOfOf, rcvdOf] at *; simpa using heng c
+      · injection hs with hs; subst hs
+        refine ⟨?_, ?_, ?_, wf_snoc _ (by simp [WfObs])⟩
+        · simp only [fedOk, fm_snoc, fedOkOf] at *; simpa using htodo
+        · simp only [allOut, fm_snoc, allOutOf] at *; simpa using hout
+        · intro c; simp only [outOf, rcvd, fm_snoc, outOfOf, rcvdOf] at *; simpa using heng c
+  | recv c =>
+    simp only [step] at hs
+    split at hs
+    · rename_i hc
+      have hpe : s.pend c = [] := by simpa using hc.2
+      split at hs
+      · simp at hs
+      · rename_i src e rest hin
+        injection hs with hs; subst hs
+        refine ⟨?_, ?_, ?_, wf_snoc _ (by simp [WfObs])⟩
+        · simp only [fedOk, fm_snoc, fedOkOf] at *; simpa using htodo
+        · simp only [allOut, fm_snoc, allOutOf] at *; simpa using hout
+        · intro c'
+          by_cases hcc : c' = c
+          · subst hcc
+            have h1 := (heng c').1; have h2 := (heng c').2
+            rw [hpe] at h1
+            simp only [outOf, rcvd, fm_snoc, outOfOf, rcvdOf, upd_same, if_true, Option.toList,
+              List.append_nil] at *
+            rw [engRun_snoc, engSt_snoc, ← h2, ← h1]
+            simp
+          · have hne : ¬ (c = c') := fun h => hcc h.symm
+            simp only [outOf, rcvd, fm_snoc, outOfOf, rcvdOf, upd_other _ _ _ _ hcc, hne, if_false,
+              Option.toList, List.append_nil] at *
+            exact heng c'
+      · rename_i k rest hin
+        injection hs with hs; subst hs
+        refine ⟨?_, ?_, ?_, wf_snoc _ (by simp [WfObs])⟩
+        · simp only [fedOk, fm_snoc, fedOkOf] at *; simpa using htodo
+        · simp only [allOut, fm_snoc, allOutOf] at *; simpa using hout
+        · intro c'; simp only [outOf, rcvd, fm_snoc, outOfOf, rcvdOf] at *; simpa using heng c'
+    · simp at hs
+  | fwd c =>
+    simp only [step] at hs
+    split at hs
+    · rename_i hcn
+      split at hs
+      · simp at hs
+      · rename_i e rest hpe
+        have key : ∀ (dst : Option Nat) (ok : Bool) (c' : Nat),
+            outOf (s.log ++ [Obs.fwd c e dst ok]) c' ++ upd s.pend c rest c' =
+              engRun net c' (σ0 c') (rcvd (s.log ++ [Obs.fwd c e dst ok]) c') ∧
+            s.eng c' = engSt net c' (σ0 c') (rcvd (s.log ++ [Obs.fwd c e dst ok]) c') := by
+          intro dst ok c'
+          by_cases hcc : c' = c
+          · subst hcc
+            have h1 := (heng c').1; have h2 := (heng c').2
+            rw [hpe] at h1
+            simp only [outOf, rcvd, fm_snoc, outOfOf, rcvdOf, upd_same, if_true, Option.toList,
+              List.append_nil] at *
+            exact ⟨by rw [← h1]; simp, h2⟩
+          · have hne : ¬ (c = c') := fun h => hcc h.symm
+            simp only [outOf, rcvd, fm_snoc, outOfOf, rcvdOf, upd_other _ _ _ _ hcc, hne, if_false,
+              Option.toList, List.append_nil] at *
+            exact heng c'
+        split at hs
+        · rename_i htg
+          injection hs with hs; subst hs
+          refine ⟨?_, ?_, key none true, wf_snoc _ (by simp [WfObs, htg, hcn])⟩
+          · simp only [fedOk, fm_snoc, fedOkOf] at *; simpa using htodo
+          · simp only [allOut, fm_snoc, allOutOf] at *; simp [hout]
+        · rename_i q htg
+          split at hs
+          · injection hs with hs; subst hs
+            refine ⟨?_, ?_, key (some q) true, wf_snoc _ (by simp [WfObs, htg, hcn])⟩
+            · simp only [fedOk, fm_snoc, fedOkOf] at *; simpa using htodo
+            · simp only [allOut, fm_snoc, allOutOf] at *; simp [hout]
+          · split at hs
+            · simp at hs
+            · injection hs with hs; subst hs
+              refine ⟨?_, ?_, key (some q) false, wf_snoc _ (by simp [WfObs, htg, hcn])⟩
+              · simp only [fedOk, fm_snoc, fedOkOf] at *; simpa using htodo
+              · simp only [allOut, fm_snoc, allOutOf] at *; simp [hout]
+    · simp at hs
+  | start =>
+    simp only [step] at hs
+    split at hs
+    · simp at hs
+    · injection hs with hs; subst hs
+      refine ⟨?_, ?_, ?_, wf_snoc _ (by simp [WfObs])⟩
+      · simp only [fedOk, fm_snoc, fedOkOf] at *; simpa using htodo
+      · simp only [allOut, fm_snoc, allOutOf] at *; simpa using hout
+      · intro c'; simp only [outOf, rcvd, fm_snoc, outOfOf, rcvdOf] at *; simpa using heng c'
+  | inject c =>
+    simp only [step] at hs
+    split at hs
+    · simp at hs
+    · split at hs
+      · split at hs <;>
+        · injection hs with hs; subst hs
+          refine ⟨?_, ?_, ?_, wf_snoc _ (by simp [WfObs])⟩
+          · simp only [fedOk, fm_snoc, fedOkOf] at *; simpa using htodo
+          · simp only [allOut, fm_snoc, allOutOf] at *; simpa using hout
+          · intro c'; simp only [outOf, rcvd, fm_snoc, outOfOf, rcvdOf] at *; simpa using heng c'
+      · simp at hs
+  | collect =>
+    simp only [step] at hs
+    split at hs
+    · simp at hs
+    · (repeat' split at hs) <;>
+      · injection hs with hs; subst hs
+        refine ⟨?_, ?_, ?_, wf_snoc _ (by simp [WfObs])⟩
+        · simp only [fedOk, fm_snoc, fedOkOf] at *; simpa using htodo
+        · simp only [allOut, fm_snoc, allOutOf] at *; simpa using hout
+        · intro c'; simp only [outOf, rcvd, fm_snoc, outOfOf, rcvdOf] at *; simpa using heng c'
+
+theorem finv_reach (net : Net σ ε) (inputs : List ε) (σ0 : Nat → σ) (s : St σ ε)
+    (h : Reach net (init inputs σ0) s) : FInv net inputs σ0 s := by
+  induction h with
+  | refl => exact finv_init net inputs σ0
+  | tail l _ hs ih => exact finv_step net inputs σ0 _ _ l ih hs
+
+theorem fm_filter_congr {α β : Type} (f g : α → Option β) (p : β → Bool) (l : List α)
+    (h : ∀ o ∈ l, (f o).filter p = (g o).filter p) :
+    (l.filterMap f).filter p = (l.filterMap g).filter p := by
+  induction l with
+  | nil => rfl
+  | cons o l ih =>
+    have ho := h o (List.mem_cons_self ..)
+    have hl := ih (fun o' ho' => h o' (List.mem_cons_of_mem _ ho'))
+    simp only [List.filterMap_cons]
+    cases hf : f o <;> cases hg : g o <;> simp only [hf, hg, Option.filter] at ho ⊢
+    · exact hl
+    · rename_i b
+      by_cases hb : p b = true
+      · simp [hb] at ho
+      · simp [hb, hl]
+    · rename_i a
+      by_cases ha : p a = true
+      · simp [ha] at ho
+      · simp [ha, hl]
+    · rename_i a b
+      by_cases ha : p a = true <;> by_cases hb : p b = true <;> simp [ha, hb] at ho ⊢
+      · simp [ho, hl]
+      · simp [hl]
+
+/-- the program and the network fit together -/
+structure ProgNet (P : Prog τ ε) (net : Net σ ε) : Prop where
+  route : ∀ e, net.route e = routeTy P.streams (P.ty e)
+  ctxs : ∀ s ∈ P.streams, s.ctx < net.n
+  names : ∀ s1 ∈ P.streams, ∀ s2 ∈ P.streams, s1.name = s2.name → s1 = s2
+
+theorem ownerOf_of_mem (P : Prog τ ε) (net : Net σ ε) (hpn : ProgNet P net) (s : SDecl Nat)
+    (hs : s ∈ P.streams) : ownerOf P.streams s.name = some s.ctx := by
+  unfold ownerOf
+  cases hf : P.streams.find? (fun s' => decide (s'.name = s.name)) with
+  | none =>
+    have := List.find?_eq_none.1 hf s hs
+    simp at this
+  | some s' =>
+    have h1 := List.mem_of_find?_eq_some hf
+    have h2 := List.find?_some hf
+    simp at h2
+    rw [hpn.names s' h1 s hs h2]; rfl
+
+theorem mem_of_ownerOf (P : Prog τ ε) (u c : Nat) (h : ownerOf P.streams u = some c) :
+    ∃ s ∈ P.streams, s.name = u ∧ s.ctx = c := by
+  unfold ownerOf at h
+  cases hf : P.streams.find? (fun s' => decide (s'.name = u)) with
+  | none => simp [hf] at h
+  | some s' =>
+    simp [hf] at h
+    have h1 := List.mem_of_find?_eq_some hf
+    have h2 := List.find?_some hf
+    simp at h2
+    exact ⟨s', h1, h2, h⟩
+
+theorem ownerOf_none (P : Prog τ ε) (u : Nat) (h : ∀ s ∈ P.streams, s.name ≠ u) : ownerOf P.streams u = none := by
+  unfold ownerOf
+  cases hf : P.streams.find? (fun s' => decide (s'.name = u)) with
+  | none => rfl
+  | some s' =>
+    have h1 := List.mem_of_find?_eq_some hf
+    have h2 := List.find?_some hf
+    simp at h2
+    exact absurd h2 (h s' h1)
+
+
+section final
+variable (P : Prog τ ε) (net : Net σ ε) (hpn : ProgNet P net) (inputs : List ε) (σ0 : Nat → σ)
+  (heng : ∀ c, c < net.n → EngineOK P net (σ0 c) c)
+  (hraw : ∀ e ∈ inputs, ∀ sd ∈ P.streams, P.ty e ≠ sd.name)
+  (s : St σ ε) (hr : Reach net (init inputs σ0) s)
+
+include heng hr in
+theorem fwd_owner (c : Nat) (e : ε) (d : Option Nat) (k : Bool) (h : Obs.fwd c e d k ∈ s.log) :
+    ∃ sd ∈ P.streams, sd.ctx = c ∧ P.ty e = sd.name := by
+  have hinv := finv_reach net inputs σ0 s hr
+  have hc : c < net.n := (hinv.wf _ h).2
+  have hm : e ∈ outOf s.log c := by
+    simp only [outOf, List.mem_filterMap]; exact ⟨_, h, by simp [outOfOf]⟩
+  have : e ∈ engRun net c (σ0 c) (rcvd s.log c) := by
+    rw [← (hinv.eng c).1]; exact List.mem_append_left _ hm
+  exact (heng c hc (rcvd s.log c)).1 e this
+
+include hr in
+theorem got_src (q : Nat) (src : Src) (e : ε) (h : Obs.got q src e ∈ s.log) :
+    (src = .ingress ∧ e ∈ inputs) ∨ (∃ c', src = .ctx c' ∧ Obs.fwd c' e (some q) true ∈ s.log) := by
+  have hinv := finv_reach net inputs σ0 s hr
+  have hedge := reach_edgeInv net _ s (edgeInv_init inputs σ0) hr src q
+  have hm : e ∈ cons s.log src q := by
+    simp only [cons, List.mem_filterMap]; exact ⟨_, h, by simp [consOf]⟩
+  have hm2 : e ∈ enq s.log src q := by rw [← hedge]; exact List.mem_append_left _ hm
+  simp only [enq, List.mem_filterMap] at hm2
+  obtain ⟨o, ho, hoe⟩ := hm2
+  cases o with
+  | fed e' q' ok =>
+    cases ok with
+    | false => simp [enqOf] at hoe
+    | true =>
+      simp only [enqOf] at hoe
+      split at hoe
+      · rename_i hc; injection hoe with hoe; subst hoe
+        left; refine ⟨hc.1, ?_⟩
+        rw [← hinv.todo]; apply List.mem_append_left
+        simp only [fedOk, List.mem_filterMap]; exact ⟨_, ho, by simp [fedOkOf]⟩
+      · simp at hoe
+  | fwd c' e' dst ok =>
+    cases dst with
+    | none => simp [enqOf] at hoe
+    | some q' =>
+      cases ok with
+      | false => simp [enqOf] at hoe
+      | true =>
+        simp only [enqOf] at hoe
+        split at hoe
+        · rename_i hc; injection hoe with hoe; subst hoe
+          right; exact ⟨c', hc.1, by rw [← hc.2]; exact ho⟩
+        · simp at hoe
+  | _ => simp [enqOf] at hoe
+
+include hpn heng hr in
+theorem out_filter_stream (sd : SDecl Nat) (hsd : sd ∈ P.streams) :
+    s.out.filter (fun e => P.ty e = sd.name) = (outOf s.log sd.ctx).filter (fun e => P.ty e = sd.name) := by
+  have hinv := finv_reach net inputs σ0 s hr
+  rw [hinv.out]
+  apply fm_filter_congr
+  intro o ho
+  cases o with
+  | fwd c' e d k =>
+    by_cases hc : c' = sd.ctx
+    · simp [allOutOf, outOfOf, hc]
+    · have hty : P.ty e ≠ sd.name := by
+        intro hty
+        obtain ⟨sd', hsd', hc', hn'⟩ := fwd_owner P net inputs σ0 heng s hr c' e d k ho
+        have := hpn.names sd' hsd' sd hsd (by rw [← hn', hty])
+        subst this; exact hc hc'.symm
+      simp [allOutOf, outOfOf, hc, Option.filter, hty]
+  | _ => simp [allOutOf, outOfOf]
+
+include hpn in
+theorem tgt_of_route (e : ε) (c : Nat) (hc : c < net.n) (h : routeTy P.streams (P.ty e) = some c) :
+    tgt net e = some c := by
+  simp [tgt, hpn.route e, h, hc]
+
+include hpn heng hraw hr in
+theorem network_kahn (hns : ∀ sd ∈ P.streams, starved P.streams sd = false) (hnd : NoDrop s.log)
+    (hq : Quiescent net s) (ht : s.todo = []) :
+    Kahn P inputs (fun t => if P.streams.any (fun sd => sd.name == t) then s.out.filter (fun e => P.ty e = t)
+                            else inputs.filter (fun e => P.ty e = t)) := by
+  have hinv := finv_reach net inputs σ0 s hr
+  have hedge := reach_edgeInv net _ s (edgeInv_init inputs σ0) hr
+  have hany : ∀ sd ∈ P.streams, P.streams.any (fun sd' => sd'.name == sd.name) = true := by
+    intro sd hsd; simp only [List.any_eq_true]; exact ⟨sd, hsd, by simp⟩
+  constructor
+  · intro t hno
+    have : P.streams.any (fun sd => sd.name == t) = false := by
+      simp only [List.any_eq_false]; intro sd hsd; simpa using hno sd hsd
+    simp [this]
+  · intro sd hsd
+    have hc : sd.ctx < net.n := hpn.ctxs sd hsd
+    simp only [hany sd hsd, if_true]
+    rw [out_filter_stream P net hpn inputs σ0 heng s hr sd hsd]
+    have hrun : outOf s.log sd.ctx = engRun net sd.ctx (σ0 sd.ctx) (rcvd s.log sd.ctx) := by
+      have := (hinv.eng sd.ctx).1; rw [(hq sd.ctx hc).2] at this; simpa using this
+    rw [hrun, (heng sd.ctx hc (rcvd s.log sd.ctx)).2 sd hsd rfl]
+    congr 1
+    by_cases ho : ownerOf P.streams sd.src = some sd.ctx
+    · obtain ⟨su, hsu, hun, huc⟩ := mem_of_ownerOf P sd.src sd.ctx ho
+      have h1 := out_filter_stream P net hpn inputs σ0 heng s hr su hsu
+      rw [hun, huc, hrun] at h1
+      have := hany su hsu; rw [hun] at this
+      simp [ho, this, h1]
+    · have hroute : routeTy P.streams sd.src = some sd.ctx := by
+        have := hns sd hsd
+        simp only [starved, decide_eq_false_iff_not, not_and, Decidable.not_not] at this
+        exact this ho
+      simp only [ho, if_false]
+      have hin : s.inbox sd.ctx = [] := (hq sd.ctx hc).1
+      by_cases hu : ∃ su ∈ P.streams, su.name = sd.src
+      · obtain ⟨su, hsu, hun⟩ := hu
+        have hanyu := hany su hsu; rw [hun] at hanyu
+        simp only [hanyu, if_true]
+        -- received of type u = consumed on the edge owner(u) → ctx
+        have e1 : (rcvd s.log sd.ctx).filter (fun e => P.ty e = sd.src) =
+            (cons s.log (.ctx su.ctx) sd.ctx).filter (fun e => P.ty e = sd.src) := by
+          apply fm_filter_congr
+          intro o hom
+          cases o with
+          | got q src e =>
+            by_cases hqc : q = sd.ctx
+            · by_cases hty : P.ty e = sd.src
+              · have hsrc : src = .ctx su.ctx := by
+                  rcases got_src net inputs σ0 s hr q src e hom with ⟨_, hin'⟩ | ⟨c'', hs'', hf''⟩
+                  · exact absurd (hty.trans hun.symm) (hraw e hin' su hsu)
+                  · obtain ⟨sd', hsd', hc', hn'⟩ := fwd_owner P net inputs σ0 heng s hr c'' e _ _ hf''
+                    have := hpn.names sd' hsd' su hsu (by rw [← hn', hty, hun])
+                    subst this; rw [hs'', hc']
+                simp [rcvdOf, consOf, hqc, hsrc]
+              · simp only [rcvdOf, consOf, hqc, Option.filter]; (repeat' split) <;> simp_all
+            · simp [rcvdOf, consOf, hqc]
+          | _ => simp [rcvdOf, consOf]
+        have e2 : cons s.log (.ctx su.ctx) sd.ctx = enq s.log (.ctx su.ctx) sd.ctx := by
+          have := hedge (.ctx su.ctx) sd.ctx; rw [hin] at this; simpa [proj] using this
+        have e3 : (sent s.log su.ctx sd.ctx).filter (fun e => P.ty e = sd.src) =
+            (outOf s.log su.ctx).filter (fun e => P.ty e = sd.src) := by
+          apply fm_filter_congr
+          intro o hom
+          cases o with
+          | fwd c'' e dst k =>
+            by_cases hcc : c'' = su.ctx
+            · by_cases hty : P.ty e = sd.src
+              · have hd : dst = some sd.ctx := by
+                  rw [(hinv.wf _ hom).1]
+                  exact tgt_of_route P net hpn e sd.ctx hc (by rw [hty]; exact hroute)
+                simp [sentOf, outOfOf, hcc, hd]
+              · cases dst <;> simp only [sentOf, outOfOf, hcc, Option.filter] <;> (repeat' split) <;> simp_all
+            · cases dst <;> simp [sentOf, outOfOf, hcc]
+          | _ => simp [sentOf, outOfOf]
+        rw [e1, e2, ← sent_eq_enq_of_noDrop _ _ _ hnd, e3]
+        have h1 := out_filter_stream P net hpn inputs σ0 heng s hr su hsu
+        rw [hun] at h1; exact h1.symm
+      · have hno : ∀ su ∈ P.streams, su.name ≠ sd.src := fun su hsu hn => hu ⟨su, hsu, hn⟩
+        have hanyu : P.streams.any (fun sd' => sd'.name == sd.src) = false := by
+          simp only [List.any_eq_false]; intro su hsu; simpa using hno su hsu
+        simp only [hanyu]
+        have e1 : (rcvd s.log sd.ctx).filter (fun e => P.ty e = sd.src) =
+            (cons s.log .ingress sd.ctx).filter (fun e => P.ty e = sd.src) := by
+          apply fm_filter_congr
+          intro o hom
+          cases o with
+          | got q src e =>
+            by_cases hqc : q = sd.ctx
+            · by_cases hty : P.ty e = sd.src
+              · have hsrc : src = .ingress := by
+                  rcases got_src net inputs σ0 s hr q src e hom with ⟨hs', _⟩ | ⟨c'', hs'', hf''⟩
+                  · exact hs'
+                  · obtain ⟨sd', hsd', _, hn'⟩ := fwd_owner P net inputs σ0 heng s hr c'' e _ _ hf''
+                    exact absurd (hn'.symm.trans hty) (hno sd' hsd')
+                simp [rcvdOf, consOf, hqc, hsrc]
+              · simp only [rcvdOf, consOf, hqc, Option.filter]; (repeat' split) <;> simp_all
+            · simp [rcvdOf, consOf, hqc]
+          | _ => simp [rcvdOf, consOf]
+        have e2 : cons s.log .ingress sd.ctx = enq s.log .ingress sd.ctx := by
+          have := hedge .ingress sd.ctx; rw [hin] at this; simpa [proj] using this
+        have e3 : (enq s.log .ingress sd.ctx).filter (fun e => P.ty e = sd.src) =
+            (fedOk s.log).filter (fun e => P.ty e = sd.src) := by
+          apply fm_filter_congr
+          intro o hom
+          cases o with
+          | fed e q ok =>
+            cases ok with
+            | false => simp [enqOf, fedOkOf]
+            | true =>
+              by_cases hty : P.ty e = sd.src
+              · have hqq : q = sd.ctx := by
+                  have := hinv.wf _ hom
+                  simp only [WfObs] at this
+                  rw [this, tgt_of_route P net hpn e sd.ctx hc (by rw [hty]; exact hroute)]; rfl
+                simp [enqOf, fedOkOf, hqq]
+              · simp only [enqOf, fedOkOf, Option.filter]; (repeat' split) <;> simp_all
+          | fwd c'' e dst k => cases dst <;> cases k <;> simp [enqOf, fedOkOf]
+          | _ => simp [enqOf, fedOkOf]
+        have e4 : fedOk s.log = inputs := by have := hinv.todo; rw [ht] at this; simpa using this
+        rw [e1, e2, e3, e4]; simp
+
+end final
 
 end Varpulis.Ctx
